@@ -217,7 +217,8 @@ theorem firstK_ne_nil (l : List Nat) (k : Nat) (hk : 1 ≤ k) (hl : 1 ≤ l.leng
   unfold firstK
   intro h
   have := congrArg List.length h
-  simp at this
+  rw [List.length_take] at this
+  simp only [List.length_nil] at this
   omega
 
 /-- the renumbering of the Spec (x ↦ x + 2 outside the two ends) is a `Contr` -/
@@ -376,7 +377,7 @@ theorem checker_sound (edges : List (Nat × Nat)) (sorted : List Nat) (k : Nat) 
         simpa [Bool.or_eq_true, List.contains_iff_mem] using b
       rcases hcov x a with h | h
       · rcases h with h | h
-        · exact absurd hb h
+        · rw [b] at h; cases h
         · have := hleft_in x h
           rw [c] at this; cases this
       · exact h
